@@ -1229,6 +1229,19 @@ def add_invariant_checks(cls: ClassT) -> None:
     last_invariant = cls.__invariants__[-1]  # type: ignore
     assert isinstance(last_invariant, icontract._types.Invariant)
 
+    # The methods have to be wrapped according to *all* the invariants of the class, and not only according
+    # to the last one: when this function is called by the meta-class for a sub-class, the sub-class may define
+    # new methods (or its own ``__setattr__``) which have not been seen when the invariants inherited from
+    # the base classes were added one by one.
+    check_on_call = any(
+        InvariantCheckEvent.CALL in an_invariant.check_on
+        for an_invariant in cls.__invariants__  # type: ignore
+    )
+    check_on_setattr = any(
+        InvariantCheckEvent.SETATTR in an_invariant.check_on
+        for an_invariant in cls.__invariants__  # type: ignore
+    )
+
     # Filter out entries in the directory which are certainly not candidates for decoration
     # regarding the ``last_invariant``. Note that the functions which are already decorated
     # will not be re-decorated, so that this loop runs in O( dir(cls) * len(invariants) ),
@@ -1253,16 +1266,10 @@ def add_invariant_checks(cls: ClassT) -> None:
             init_func = value
             continue
 
-        if (
-            name != "__setattr__"
-            and InvariantCheckEvent.CALL not in last_invariant.check_on
-        ):
+        if name != "__setattr__" and not check_on_call:
             continue
 
-        if (
-            name == "__setattr__"
-            and InvariantCheckEvent.SETATTR not in last_invariant.check_on
-        ):
+        if name == "__setattr__" and not check_on_setattr:
             continue
 
         if (
